@@ -347,14 +347,15 @@ def _get_or_make_region(
       line_num = parse_vtt_int(value[0])
       if line_num is not None:
         line_count = _DEFAULT_ROWS if writing_mode in (styles.WritingModeType.rltb, styles.WritingModeType.lrtb) else _DEFAULT_COLS
+        # the line alignment applies to percentages only: it is ignored when the cue snaps to lines
         if line_num >= 0:
           # counted from the before edge, line 0 being the first line
           line_offset = 100 * line_num / line_count
+          line_align = "start"
         else:
           # counted from the after edge, line -1 being the last line; the cue grows away from that edge
           line_offset = 100 + 100 * (line_num + 1) / line_count
-          if len(value) == 1:
-            line_align = "end"
+          line_align = "end"
         line_offset = min(100, max(0, line_offset))
 
     if line_offset is not None:
